@@ -257,14 +257,14 @@ DEG1_FIELDS = ("MatrixCreator::rhs_", "MatrixCreator::mat_")
 def field_degree(ctx, q):
     """Homogeneity degree of a data member: rhs_ and mat_ are degree 1 by rule QD itself; an arithmetic member gets the common
     degree of everything its class assigns to it (constructor initialisers included); other members carry no weight."""
-    if q in (CQ + f for f in DEG1_FIELDS):
+    if q in (CQ + f for f in DEG1_FIELDS) or q in (CQ + "NetModel::netWeight_", CQ + "Circuit::netWeights_"):
         return 1
     key = (id(ctx), q)
     if key in _FIELD_MEMO:
         return _FIELD_MEMO[key]
     _FIELD_MEMO[key] = 0
     owner = q.rsplit("::", 1)[0]
-    if owner != CQ + "MatrixCreator":
+    if owner not in (CQ + "MatrixCreator", CQ + "NetModel"):
         return 0
     degs = set()
     for f in ctx.prog.funcs.values():
@@ -349,6 +349,22 @@ def check_qt(ctx, rep):
             else:
                 rep.violation("QT", f.decl, f, "%s returns %s" % (f.short, rt), "weight accessor must return a floating-point value",
                               key="%s|non-floating return" % f.short)
+    # the accessors hand out the stored weight itself: homogeneous of degree 1 in the weights (every user of netWeight() is typed on that basis)
+    for q in sorted(WEIGHT_SOURCES):
+        for f in prog.func(q, required=False) or []:
+            if f.body is None:
+                continue
+            dg = Degrees(ctx, f, set(), set())
+            for x in walk(f.body):
+                if x.get("kind") == "ReturnStmt" and children(x):
+                    d_ = dg.degree(canon(children(x)[0], refs=False))
+                    if d_ == 1:
+                        rep.holds("QD", x, f, "%s returns a value of degree 1 in the weights" % f.short)
+                    else:
+                        rep.violation("QD", x, f, "%s returns %s, of degree %s in the weights" % (f.short, pretty(canon(children(x)[0]))[:80], d_),
+                                      "the accessor is the unit every net term is stamped in; penalties are stamped in the caller's unit, so a weight "
+                                      "normalised or offset here changes the balance between nets and penalties when all are scaled together",
+                                      key="%s|accessor not of degree 1" % f.short)
     wparams = []
     for q in (CQ + "Circuit::addNet", CQ + "NetModel::addNet", CQ + "MatrixCreator::addPin",
               CQ + "MatrixCreator::addMovingPin", CQ + "MatrixCreator::addFixedPin"):
